@@ -57,6 +57,15 @@ def build_data(spec):
             z = 0.0 if i < max(2, n // 3) else r.choice([0.0, 1.0, -1.0, 0.5, r.gauss(0, 1)])
         elif kind == 'lattice':
             z = float(r.randint(-2, 2)) / 2
+        elif kind in ('np_int64', 'np_int32'):
+            # numpy fixed-width integers with a spread whose SQUARE does not fit the type (nanosecond timestamps a few
+            # seconds apart; int32 counters): an intermediate computed in the item's own type wraps around silently
+            import numpy
+            if kind == 'np_int64':
+                xs.append(numpy.int64(1_000_000_000_000_000 + r.randint(0, 9_000_000_000)))     # (sums of 10^4 such items still fit int64)
+            else:
+                xs.append(numpy.int32(r.randint(-100_000, 100_000)))
+            continue
         else:   # int
             xs.append(int(off) + r.randint(-1000, 1000) * max(1, int(sc)))
             continue
@@ -77,6 +86,8 @@ class Exact:
         self.mx = None
 
     def add(self, x):
+        if type(x).__module__ == 'numpy':
+            x = x.item()
         p, q = (x, 1) if isinstance(x, int) else x.as_integer_ratio()
         X = p * ((1 << self.K) // q)
         self.n += 1
@@ -150,16 +161,16 @@ class C12(Check):
             '3 interleaved groups under group_by; key_mapper on/off). Every prefix value of the streaming variant and the reduce value are compared '
             'with exact rational statistics under a bound C*n*u*(v+|m|sqrt(v)) + C*n^2*u^2*m^2 (C=4, u=2^-53; sum/mean: C*n*u*sum|x|). '
             'non-trivial = n >= 3 and non-constant data; distinct = hash of the case')
-    ASSUMPTIONS = ['inputs are finite and neither their squares nor their sums overflow',
+    ASSUMPTIONS = ['inputs are finite and neither their squares nor their sums overflow (for numpy fixed-width items: the items and their sums fit the type; the squares of their spread need not)',
                    'min/max of an empty sequence with reduce=True emit None (pinned by the suite); mean of an empty sequence is outside the domain']
     ANCHORS = ['rxsci/math/sum.py', 'rxsci/math/mean.py', 'rxsci/math/min.py', 'rxsci/math/max.py', 'rxsci/math/variance.py',
                'rxsci/math/stddev.py', 'rxsci/math/formal/variance.py', 'rxsci/math/formal/stddev.py', 'rxsci/math/formal/__init__.py']
-    REQUIRED_TAGS = ['op=' + o for o in OPS] + ['plain', 'mux', 'group', 'km', 'n=0', 'n=1', 'n>=1000', 'n>1024', 'offset>=1e6']
+    REQUIRED_TAGS = ['op=' + o for o in OPS] + ['plain', 'mux', 'group', 'km', 'n=0', 'n=1', 'n>=1000', 'n>1024', 'offset>=1e6', 'kind=np_int64', 'kind=np_int32']
     REQUIRED_OBSERVED = ['values_compared', 'stream_equals_reduce_checks']
 
     def generate(self, rng, tier, shard, nshards):
         ncases = 1150 if tier == 'quick' else 10 ** 7
-        kinds = ['gauss', 'uniform', 'int', 'constant', 'alternating', 'outlier', 'small_ints', 'plateau', 'lattice']
+        kinds = ['gauss', 'uniform', 'int', 'constant', 'alternating', 'outlier', 'small_ints', 'plateau', 'lattice', 'np_int64', 'np_int32']
         offsets = [0.0, 1.0, -1.0, 1e3, 1e6, -1e6, 1e9]
         scales = [1e-8, 1e-3, 1.0, 1.0, 1e3, 1e8]
         ns = [0, 1, 2, 3, 10, 100, 100, 1000, 100, 2500] if tier == 'quick' else [0, 1, 2, 3, 10, 100, 1000, 1000, 2500, 10000]
@@ -283,13 +294,15 @@ class C12(Check):
                 if f:
                     return out
                 out.observed['stream_equals_reduce_checks'] += 1
-                a, b = sv[-1], rv[0]
+                a, b = [v.item() if type(v).__module__ == 'numpy' else v for v in (sv[-1], rv[0])]     # numpy scalars: by value
                 if not (a == b and type(a) is type(b)):
                     return out.fail('last-streaming-value-differs-from-reduce-value', streaming=repr(a), reduce=repr(b), n=len(data), group=g)
         return out
 
     def _check_value(self, out, op, ex, got, phase, i, g):
         out.observed['values_compared'] += 1
+        if type(got).__module__ == 'numpy' and getattr(got, 'shape', None) == ():
+            got = got.item()            # a numpy scalar result (numpy items): judged by its value
         n = ex.n
         if op in ('min', 'max'):
             want = ex.mn if op == 'min' else ex.mx
